@@ -20,6 +20,10 @@ Ok == /\ T.out = "ok"
       /\ ("sizes" \in DOMAIN T) => SizesFaithful(T.keys, T.labels, T.sizes)
       /\ ("glabels" \in DOMAIN T) => GroupsFaithful(T.keys, T.glabels, T.grows)
       /\ ("ngroups" \in DOMAIN T) => T.ngroups = Len(T.labels)
+      \* bookkeeping views of the object: has_null_keys <=> some row has the null code, len() = number of rows
+      /\ ("hasnull" \in DOMAIN T) => /\ (T.hasnull = 1) <=> (\E i \in 1..Len(T.keys) : KeyIsNull(T.keys[i]))
+                                      /\ T.hasnull \in {0, 1}
+                                      /\ T.nrows = Len(T.keys)
 
 TraceReturn == /\ tpc = "call"
                /\ Ok
